@@ -53,6 +53,21 @@ CLAIMED = {
    note="Partial: parser half validated, not proved. Oniguruma is modelled. glibc fnmatch is the executable reference where the property fixes the answer (no backslash/leading ^ in brackets, no collating symbols; case folding of ranges/classes left open).",
    technique="Coq proof (engine: induction with the shift lemma) + exhaustive small-domain differential correspondence",
    design="5 C12"),
+ "C07": dict(
+   text="Coq theorems: the printed path is the starting point as given followed by the names joined by single '/' (none added after a trailing '/'), and a stream of paths each followed by its delimiter is read back by the byte-delimited reader as exactly those paths, in order, for every chunking; with C04's losslessness every path reaches the command exactly once. Tied to /repo by in-process -print0/-print on trees of hostile names under nine spellings of the starting point and by real find | xargs -0 pipelines with a recorder.",
+   note="Trusted: Coq kernel, extraction, harness; to_string_lossy (identity on valid UTF-8), the pipe and Command::args are exercised, not modelled.",
+   technique="Coq proof (round trip by induction) + differential correspondence + real pipelines",
+   design="5 C07"),
+ "C09": dict(
+   text="Coq theorems: split(\"{}\") at parse time followed by join(path) per file is textual substitution of every occurrence; argv has one element per template whatever the path contains; templates without {} are unchanged. -execdir's ./basename and working directory are an executable model over PathModel, compared with std::path on every run. Tied to /repo by the real find binary running a recorder child on hostile names, with children exiting 0/1/255/killed/missing (truth of the action, find's exit status unaffected).",
+   note="Trusted: Coq kernel, extraction, harness; Command/argv fidelity observed by the recorder; std::path modelled (PathModel) and compared.",
+   technique="Coq proof + end-to-end correspondence with a recorder child",
+   design="5 C09"),
+ "C18": dict(
+   text="Coq theorems: operands before the expression are the starting points in order, exactly as spelled, '.' when there are none; every reported path has its starting point as a literal prefix; without -quit the result is the per-root results in order (roots independent); -files0-from returns exactly the NUL-separated names with or without the final NUL, empty names diagnosed and skipped. Tied to /repo by in-process runs over lists of existing/missing/duplicated starting points in every spelling and files0 lists with hostile and empty names.",
+   note="Trusted: Coq kernel, extraction, harness; the visit sequence below a root is C02's; -files0-from - (stdin) not exercised.",
+   technique="Coq proof + differential correspondence",
+   design="5 C18"),
 }
 ALL = ["C%02d" % i for i in range(1, 21)]
 def main():
